@@ -58,6 +58,16 @@ __attribute__((noinline)) uint64_t call_zeroed(const void *code) {
   return r;
 }
 
+uint64_t call_with_arrays(const void *code, int len) {
+  uint64_t *a[6];
+  if (len < 1) len = 1;
+  for (int i = 0; i < 6; i++) a[i] = (uint64_t *)calloc((size_t)len, sizeof(uint64_t));
+  typedef uint64_t (*fn_t)(uint64_t *, uint64_t *, uint64_t *, uint64_t *, uint64_t *, uint64_t *);
+  uint64_t r = ((fn_t)code)(a[0], a[1], a[2], a[3], a[4], a[5]);
+  for (int i = 0; i < 6; i++) free(a[i]);
+  return r;
+}
+
 static uint8_t *exec_page() {
   static uint8_t *pg = nullptr;
   if (!pg) pg = (uint8_t *)__real_mmap(nullptr, 4096, PROT_READ | PROT_WRITE | PROT_EXEC, MAP_PRIVATE | MAP_ANONYMOUS, -1, 0);
